@@ -121,9 +121,28 @@ def write_replay(pid, st, payload):
 def run_cases(st, lines, which='harness_std'):
     exe = st[which]
     out, rc, err = corr.run_parallel([exe], lines, 16)
-    return out
+    # SKIPPED = not run because the process had already died or hung several times (corr.run_lines); such answers carry no information
+    return ['bad-op' if a == 'SKIPPED' else a for a in out], ('SKIPPED' in out)
+
+def run_cases1(st, lines, which='harness_std'):
+    return run_cases(st, lines, which)[0]
 
 def main(argv):
+    """entry point: an unexpected exception of the machinery is reported as an obligation that could not be checked
+    (exit 1 with a VIOLATION line naming it), never as a silent non-zero exit"""
+    try:
+        return main_(argv)
+    except Exception:
+        import traceback
+        tb = traceback.format_exc()
+        pid = argv[1] if len(argv) > 1 else '?'
+        sys.stderr.write(tb)
+        rp = write_replay(pid, {'hash': None}, {'kind': 'machinery', 'obligation': 'the check itself failed on this tree', 'traceback': tb[-4000:]})
+        print('broken obligations: the check machinery raised an exception on this tree (see replay file)')
+        print('VIOLATION property=%s replay=%s no-failing-input-found' % (pid, rp))
+        return 1
+
+def main_(argv):
     t0 = time.time()
     pid = argv[1]
     tier = os.environ.get('VERIF_TIER', 'quick')
@@ -210,17 +229,17 @@ def main(argv):
         hkey = 'harness_serde'
         if not st.get('harness_serde'):
             print('serde harness failed to build: ' + str(st.get('serde_error'))[-2000:])
-    impl = run_cases(st, cases.lines, hkey)
+    impl, skipped_some = run_cases(st, cases.lines, hkey)
     no_model = not st.get('driver')
     def run_model(lines):
         if no_model:
-            return list(run_cases(st, lines, hkey))      # no model to compare with: the obligation is reported below
+            return list(run_cases1(st, lines, hkey))      # no model to compare with: the obligation is reported below
         return corr.run_parallel([st['driver']], lines, 16)[0]
     model = run_model(cases.lines)
     for i, m in enumerate(cases.meta):
         if m.get('impl_only'):
             model[i] = impl[i]
-    impl_g = run_cases(st, gen_lines)
+    impl_g = run_cases1(st, gen_lines)
     model_g = run_model(gen_lines)
     cdiff = corr.diff(cases.lines, impl, model) + corr.diff(gen_lines, impl_g, model_g)
 
@@ -234,7 +253,7 @@ def main(argv):
             if len(fu) > 3 and fu[3] == 'model':
                 a2 = run_model(c2.lines) if not no_model else [m.get('want') for m in c2.meta]
             else:
-                a2 = run_cases(st, c2.lines, hkey)
+                a2 = run_cases1(st, c2.lines, hkey)
             extra_eval += len(c2.lines)
             f2 = fu[1](c2, a2)
             for f in f2:
@@ -244,8 +263,8 @@ def main(argv):
                 prev_c, prev_a = c2, a2
     nostd_out_of_domain = 0
     if spec.get('nostd'):
-        impl_n = run_cases(st, cases.lines, 'harness_nostd')
-        impl_gn = run_cases(st, gen_lines, 'harness_nostd')
+        impl_n = run_cases1(st, cases.lines, 'harness_nostd')
+        impl_gn = run_cases1(st, gen_lines, 'harness_nostd')
         ent_args = {e['name']: e['args'] for e in ents}
         def unconstructible(ln):
             """an operand that no safe public constructor or operation can produce: an overlapping pair with a finite high word
@@ -275,6 +294,8 @@ def main(argv):
         if 'line' not in f:
             f['line'] = cases.lines[f['idx']]; f['impl'] = impl[f['idx']]
 
+    if skipped_some and any(f['impl'] != 'bad-op' for f in fails):
+        fails = [f for f in fails if f['impl'] != 'bad-op']      # cases that were never run are not evidence
     # known findings are matched by (property, clause key)
     kf = [k for k in known_findings() if k['property'] == pid]
     known_hit, fresh = {}, []
@@ -409,7 +430,7 @@ def do_replay(pid, spec, st, path):
         print('replay file names broken obligations, no concrete input: %s' % json.dumps(rp.get('obligations') or rp.get('errors')))
         return 1
     lines = rp['cases']
-    impl = run_cases(st, lines)
+    impl = run_cases1(st, lines)
     model = corr.run_parallel([st['driver']], lines, 1)[0]
     for ln, a, b in zip(lines, impl, model):
         print('case: %s\n  implementation: %s\n  model:          %s\n  recorded:       %s' % (ln, a, b, rp.get('impl_answer')))
